@@ -158,6 +158,19 @@ def run(ctx) -> Result:
         rng = Rng(seed, f"c14/conc/{i}")
         o = vtime.run(lambda loop, r=rng: concurrent_round(r), budget=500_000)
         check_concurrent(o, model, res, f"concurrent-{seed}-{i}")
+    # worker level ("a job whose actor succeeds is executed exactly once"): a worker is stopped at every callback
+    # index around a succeeding execution; a message whose ack returned must not also be back in the queue
+    # (it would be executed a second time by the next worker)
+    from common import pmap
+    from props import c03
+    for part in pmap(c03._combo, [(0, 0.0, True), (2, 0.002, True), (0, 0.002, True), (4, 0.002, True)]):
+        res.evaluations += part.evaluations
+        res.cases |= {("worker-stop",) + (k if isinstance(k, tuple) else (k,)) for k in part.cases}
+        res.dist["worker-stop-points"] += part.extra.get("crash_points_enumerated", 0)
+        for p in part.problems:
+            if p.kind == "impl" and "both completed" in p.what:
+                res.bad("impl", "a successfully executed job is back in the queue after the worker stopped (it will run twice)",
+                        case=p.case, observed=p.observed, expected="acked and gone")
     return res
 
 
